@@ -141,3 +141,147 @@ def rand_walk_opts(rng, n=None):
         if rng.random() < 0.8:
             o[f] = rng.random() < pdef
     return o
+# ======================================================================================
+# C15 / C16 generators (added at the end; nothing above is changed)
+# ======================================================================================
+def rand_mgs(rng):
+    """MinGenSet instance built from a hidden generating multiset (so one exists): returns kwargs
+    (numbers, total, weight_type, max_multiplicity, lowerbound, partition_constraints,
+    remove_complement_values) and the scale (values are integers * scale, scale dyadic)."""
+    while True:
+        k = rng.choice([1, 2, 2, 3, 3, 4])
+        g = [rng.choice([1, 1, 2, 2, 3, 4, 5]) for _ in range(k)]
+        if sum(g) > 12:
+            continue
+        total = sum(g)
+        mult = rng.choice([1, 1, 1, 2, 2, 3])
+        nums = []
+        style = rng.random()
+        for _ in range(rng.randint(1, 5)):
+            if style < 0.75:
+                xs = [rng.randint(0, mult) if rng.random() < 0.6 else 0 for _ in g]
+                a = sum(x * v for x, v in zip(xs, g))
+            else:
+                a = rng.randint(1, total)           # arbitrary number: the hidden set need not generate it
+            if 0 < a <= total:
+                nums.append(a)
+        if not nums:
+            continue
+        if rng.random() < 0.2:
+            nums.append(total)
+        if rng.random() < 0.3:
+            nums.append(rng.choice(nums))           # duplicate
+        if rng.random() < 0.3:
+            c = total - rng.choice(nums)
+            if c > 0:
+                nums.append(c)                      # complement pair
+        rng.shuffle(nums)
+        parts = None
+        if mult == 1 and rng.random() < 0.3:
+            parts = []
+            for _ in range(rng.choice([1, 1, 2])):
+                t = rng.randint(1, min(3, k))
+                sums = [0] * t
+                for v in g:
+                    sums[rng.randrange(t)] += v
+                sums = [s for s in sums if s > 0] if rng.random() < 0.7 else sums
+                parts.append(sums)
+            if rng.random() < 0.1:
+                parts = []
+        is_int = rng.random() < 0.6
+        scale = 1 if is_int else rng.choice([1, 1, F(1, 2), F(1, 4), 2])
+        conv = (lambda x: int(x)) if is_int else (lambda x: float(x * scale))
+        kw = dict(numbers=[conv(a) for a in nums], total=conv(total), weight_type=int if is_int else float,
+                  max_multiplicity=mult, lowerbound=rng.choice([1, 1, 1, 1, 2, 3]),
+                  remove_complement_values=rng.random() < 0.8)
+        if parts is not None:
+            kw["partition_constraints"] = [[conv(s) for s in c] for c in parts]
+        return kw, scale
+
+
+def rand_msc(rng):
+    n_el = rng.randint(1, 6)
+    names = rng.choice([list(range(n_el)), [f"e{i}" for i in range(n_el)], [(i, i + 1) for i in range(n_el)]])
+    n_sub = rng.randint(1, 8)
+    subsets = []
+    for _ in range(n_sub):
+        s = [x for x in names if rng.random() < rng.choice([0.3, 0.5])]
+        if rng.random() < 0.15 and s:
+            s.append(s[0])                          # repeated element inside a subset
+        if rng.random() < 0.1:
+            s.append("extra")                       # element outside the universe
+        subsets.append(s)
+    universe = list(names)
+    if rng.random() < 0.8:                          # make sure a cover exists
+        for x in universe:
+            if not any(x in s for s in subsets):
+                rng.choice(subsets).append(x)
+    if rng.random() < 0.15:
+        universe.append(universe[0])                # repeated universe element
+    rng.shuffle(universe)
+    wt = rng.random()
+    if wt < 0.5:
+        weights = [rng.choice([1, 1, 2, 3, 5]) for _ in subsets]
+    elif wt < 0.8:
+        weights = [rng.choice([0.5, 1.0, 1.5, 2.25, 0.25, 4.0]) for _ in subsets]
+    elif wt < 0.9:
+        weights = [rng.choice([0, 1, 2]) for _ in subsets]
+    else:
+        weights = None
+    return dict(universe=universe, subsets=subsets, subset_weights=weights)
+
+
+def rand_mef(rng, node_mode=False, max_edges=6):
+    """MinErrorFlow instance: (kwargs, info).  Tiny graphs (<= max_edges edges), values 0..6."""
+    cyclic = rng.random() < 0.45
+    while True:
+        G0 = gen.rand_cyclic(rng, nmax=rng.choice([2, 3, 3, 4])) if cyclic else gen.rand_dag(rng, nmax=rng.choice([3, 4, 5]))
+        if G0.number_of_edges() > max_edges or (node_mode and G0.number_of_nodes() > 5):
+            continue
+        if cyclic and nx.is_directed_acyclic_graph(G0):
+            continue
+        break
+    is_int = rng.random() < 0.6
+    scale = 1 if is_int else rng.choice([1, 1, 0.5, 0.25])
+    val = (lambda: rng.choice([0, 1, 2, 3, 3, 4, 5, 6])) if is_int else (lambda: float(rng.choice([0, 1, 2, 3, 4, 6]) * scale))
+    G = nx.DiGraph()
+    if node_mode:
+        G0 = nx.relabel_nodes(G0, {v: str(v) for v in G0.nodes()})
+        for v in G0.nodes():
+            if rng.random() < 0.85:
+                G.add_node(v, flow=val())
+            else:
+                G.add_node(v)
+        for u, v in G0.edges():
+            G.add_edge(u, v)
+        elems = [v for v in G.nodes()]
+        missing = [v for v in G.nodes() if "flow" not in G.nodes[v]]
+    else:
+        es = list(G0.edges()); rng.shuffle(es)
+        missing = []
+        for u, v in es:
+            if rng.random() < 0.93:
+                G.add_edge(u, v, flow=val())
+            else:
+                G.add_edge(u, v); missing.append((u, v))
+        elems = list(G.edges())
+    ign = [x for x in elems if rng.random() < 0.15]
+    if not node_mode:
+        ign = list(dict.fromkeys(ign + missing))   # an edge without the attribute must be ignored
+    scal = {}
+    if rng.random() < 0.4:
+        for x in elems:
+            if rng.random() < 0.4:
+                scal[x] = rng.choice([0, 0.5, 0.5, 1, 0.25])
+    kw = dict(G=G, flow_attr="flow", flow_attr_origin="node" if node_mode else "edge",
+              weight_type=int if is_int else float, elements_to_ignore=ign, error_scaling=scal)
+    acyclic = nx.is_directed_acyclic_graph(G)
+    if acyclic and rng.random() < 0.35:
+        kw["sparsity_lambda"] = rng.choice([0.25, 0.5, 1, 2])
+    if rng.random() < 0.35 and not node_mode:
+        nodes = list(G.nodes())
+        kw["additional_starts"] = [v for v in nodes if rng.random() < 0.3]
+        kw["additional_ends"] = [v for v in nodes if rng.random() < 0.3]
+    if rng.random() < 0.3:
+        kw["few_flow_values_epsilon"] = rng.choice([0.5, 0.25, 1.0, 0, 2.0])
+    return kw, dict(acyclic=acyclic, is_int=is_int, scale=scale, missing=missing)
